@@ -27,6 +27,7 @@ EXPLANATION = (
     "check itself runs nothing): a stack queue under unbuffered=True and a cycle_exhausted that looks at the top message only both end in "
     "InvalidEngineState or different answers. Not decided, and violated by the pinned tree on some programs (DESIGN section 6): the equality of the "
     "answers themselves."
+    " Added after seed round 8: QH an unbuffered EvalOr / EvalDefine merges every further proof of an answer it already forwarded (add_disjunct unconditional)."
 )
 TECHNIQUE = "static analysis: sibling-interface agreement, container conservation (stored-set == removed-set == inspected-set), decision tables of append/pop/cycle_exhausted, selection table"
 LEVEL_TEXT = EXPLANATION
